@@ -12,7 +12,7 @@ ENGINE = "E1"
 TECHNIQUE = "bounded exhaustive enumeration of rules (every operator leading) x listings x both search modes on the real code; every reported match decoded against the record offset table and the reference match relation"
 RULE = ("rules: the complete C02 (repetition), C04 ($not) and C05 (capture) rule families, the depth-1 C03 operator trees, "
         "and an @any family using the shipped tests/macros/jasm_macros.yaml (@any as mnemonic, as every operand position "
-        "including one past the last operand, repeated, inside $deref) x EVERY listing of each family's bounded listing set "
+        "including one past the last operand, repeated, inside $deref) (every 5th $not rule also on listings with 16-digit addresses) x EVERY listing of each family's bounded listing set "
         "x all-matches and first-match mode x full-text and address-only results. Oracle per reported match: starts at a "
         "record start offset and ends at a record end offset of the stream; the covered instruction span is in the "
         "reference matcher's relation (so no element matched across an operand, field or instruction boundary); the "
@@ -72,6 +72,10 @@ def all_rules(tier):
             if name == "C03" and not (rc.family.startswith("I1") or rc.family.startswith("O/only") or rc.family.startswith("D/")):
                 continue
             rules.append(e1.RuleCase(f"{name}:{rc.family}", rc.pattern, f"{name}:{rc.lset}", cfgs=rc.cfgs[:1], want=W))
+    # 64-bit addresses (16 hex digits, kernel style) and 1-digit addresses side by side
+    c04 = _mods()["C04"]
+    for rc in c04.instr_rules(tier)[::5]:
+        rules.append(e1.RuleCase("addr64:" + rc.family, rc.pattern, "addr64", want=W))
     return rules
 
 
@@ -85,6 +89,7 @@ def build_lsets(h, tier):
         for k, v in mod.build_lsets(h, tier).items():
             ls[f"{name}:{k}"] = v
     ls["any"] = e1.ListingSet(h, ALPHA_ANY, 3)
+    ls["addr64"] = e1.ListingSet(h, _mods()["C04"].ALPHA_I, 3, addrs=["ffffffff81000000", "ffffffff81000003", "ffffffff8100000a"])
     return ls
 
 
